@@ -52,6 +52,10 @@ func (ag *attribGroup) decode(dec decoder.Decoder) error {
 			v = &valInt{tag: vtag}
 		case nameWithoutLang:
 			v = &valStr{tag: vtag}
+		default:
+			// every attribute has the same framing (name, value length, value):
+			// keep a value of a type we do not interpret as an opaque string
+			v = &valStr{tag: vtag}
 		}
 
 		v.decode(dec)
